@@ -3,6 +3,7 @@ package concur
 import (
 	"fmt"
 	"math/rand"
+	"reflect"
 	"sort"
 	"strings"
 
@@ -269,6 +270,54 @@ func allocateEmpties(m protoreflect.Message, depth int) {
 		case fd.Kind() == protoreflect.MessageKind:
 			if m.Has(fd) && depth < 6 {
 				allocateEmpties(m.Mutable(fd).Message(), depth+1)
+			}
+		}
+	}
+}
+
+// clipSlices reslices every slice reachable from v to its exact length.
+func clipSlices(v reflect.Value, depth int) { walkSlices(v, depth, false) }
+
+// growSlices gives every non-empty slice reachable from v spare capacity.
+func growSlices(v reflect.Value, depth int) { walkSlices(v, depth, true) }
+
+func walkSlices(v reflect.Value, depth int, grow bool) {
+	if depth > 8 {
+		return
+	}
+	switch v.Kind() {
+	case reflect.Ptr:
+		if !v.IsNil() {
+			walkSlices(v.Elem(), depth+1, grow)
+		}
+	case reflect.Struct:
+		for i := 0; i < v.NumField(); i++ {
+			f := v.Field(i)
+			if !v.Type().Field(i).IsExported() || !f.CanSet() {
+				continue
+			}
+			walkSlices(f, depth+1, grow)
+		}
+	case reflect.Slice:
+		if v.IsNil() || v.Type().Elem().Kind() == reflect.Uint8 {
+			return
+		}
+		n := v.Len()
+		if grow && n > 0 {
+			nv := reflect.MakeSlice(v.Type(), n, n+3)
+			reflect.Copy(nv, v)
+			v.Set(nv)
+		} else if !grow {
+			v.Set(v.Slice3(0, n, n))
+		}
+		for i := 0; i < n; i++ {
+			walkSlices(v.Index(i), depth+1, grow)
+		}
+	case reflect.Map:
+		for _, k := range v.MapKeys() {
+			e := v.MapIndex(k)
+			if e.Kind() == reflect.Ptr {
+				walkSlices(e, depth+1, grow)
 			}
 		}
 	}
@@ -711,6 +760,11 @@ func execC12(sc *core.Scenario) *core.Result {
 		m := valFrom(v)
 		if i%2 == 1 || sc.Run%3 == 0 {
 			allocateEmpties(m.ProtoReflect(), 0) // values built with NewNode()/NewNodeList() carry empty, non-nil collections
+		}
+		if sc.Run%2 == 0 {
+			clipSlices(reflect.ValueOf(m), 0) // slices without spare capacity (len == cap), as literals and exact allocations have
+		} else {
+			growSlices(reflect.ValueOf(m), 0) // slices with spare capacity, as repeated appends leave
 		}
 		env.add(m, "seed")
 	}
